@@ -6,6 +6,7 @@ import JaxVerif.Spec.Array
 import JaxVerif.Lemmas.Array
 import JaxVerif.Generated.CheckCode
 import JaxVerif.Generated.Rollback
+import JaxVerif.Lemmas.Slices
 
 namespace JV
 
@@ -165,6 +166,53 @@ theorem C01_source_stages (fl : Bool) (tp : TreePath) (a : Ann) (o : ArrObj) (m 
      | fail => rfl
      | annErr => rfl
      | exc e l => obtain ⟨σ, ν⟩ := l; rfl)
+
+/-- **the index arithmetic of `_check_shape` as the source has it today**: for every number of axes `n`, every
+    position `i` of the multi-axis specifier and every rank `m ≥ n - 1`, the plan translated from the source
+    (`i`, `j = -(len(dims) - i - 1)`, `if j == 0: j = None`, the slices `[:i]`, `[j:]`, `[i:j]` under Python's
+    slice rules, the two rank tests) computes exactly the bounds of the model: axes before the specifier
+    against the first `i` sizes, axes after it against the last `n - i - 1` sizes (skipped when there are none),
+    the sizes in between for the specifier itself -/
+theorem C01_source_slices (n m i : Nat) (hi : i < n) (hm : n ≤ m + 1) :
+    Generated.slicePlan.vals n m i = some (sliceSpec n m i) := by
+  have hi0 : ¬ ((i : Int) < 0) := by omega
+  have hbne : ((m : Int) != (n : Int)) = (m != n) := by
+    rw [Bool.eq_iff_iff]; simp only [bne_iff_ne, ne_eq, Int.natCast_inj]
+  by_cases hs : n - i - 1 = 0
+  · have hj : (-((n : Int) - (i : Int) - 1) == 0) = true := by simp; omega
+    simp [SlicePlan.vals, Generated.slicePlan, IExp.eval, ICmp.holds, boundsOf, pyBound, sliceSpec, hs, hj, hi0, hbne]
+    omega
+  · have hj : (-((n : Int) - (i : Int) - 1) == 0) = false := by simp; omega
+    have h1 : (1 : Int) < n - i := by omega
+    simp [SlicePlan.vals, Generated.slicePlan, IExp.eval, ICmp.holds, boundsOf, pyBound, sliceSpec, hs, hj, hi0, hbne, h1]
+    omega
+
+/-- the rank tests alone, for every rank (also those the second test rejects) -/
+theorem C01_source_rank_tests (n m i : Nat) (hi : i < n) :
+    (Generated.slicePlan.vals n m i).map (fun v => (v.noVarFail, v.varFail)) = some (m != n, decide (m < n - 1)) := by
+  have hi0 : ¬ ((i : Int) < 0) := by omega
+  have hbne : ((m : Int) != (n : Int)) = (m != n) := by
+    rw [Bool.eq_iff_iff]; simp only [bne_iff_ne, ne_eq, Int.natCast_inj]
+  by_cases hj : (-((n : Int) - (i : Int) - 1) == 0) = true <;>
+    simp [SlicePlan.vals, Generated.slicePlan, IExp.eval, ICmp.holds, boundsOf, hj, hi0, hbne] <;> omega
+
+/-- hence, on lists: the slices the source takes of `cls.dims` and `obj.shape` are the `take` / `drop` of
+    `checkShape` and `toShape` -/
+theorem C01_source_slices_lists {α β : Type} (dims : List α) (shape : List β) (i : Nat)
+    (hi : i < dims.length) (hm : dims.length ≤ shape.length + 1) :
+    ∃ v, Generated.slicePlan.vals dims.length shape.length i = some v ∧
+      sliceNat dims v.prefixDims.1 v.prefixDims.2 = dims.take i ∧
+      sliceNat shape v.prefixShape.1 v.prefixShape.2 = shape.take i ∧
+      (match v.suffixDims, v.suffixShape with
+       | some sd, some ss =>
+         sliceNat dims sd.1 sd.2 = dims.drop (i + 1) ∧
+           sliceNat shape ss.1 ss.2 = shape.drop (shape.length - (dims.length - i - 1))
+       | none, none => dims.drop (i + 1) = [] ∧ shape.drop (shape.length - (dims.length - i - 1)) = []
+       | _, _ => False) ∧
+      sliceNat shape v.midBound.1 v.midBound.2 =
+        (shape.drop i).take (shape.length - i - (dims.length - i - 1)) ∧
+      v.midFirst = v.midBound ∧ v.varIndex = i :=
+  ⟨_, C01_source_slices _ _ i hi hm, sliceSpec_lists dims shape i hi hm⟩
 
 /-! non-vacuity: concrete states meeting the hypotheses -/
 
